@@ -1,6 +1,6 @@
 (* non-vacuity: the hypotheses of the main theorems are met by concrete, non-trivial runs under the GENERATED tables *)
 From stdpp Require Import list numbers option.
-From L2 Require Import Model GenTables Sim Base Own Jobs Fut Wake WakeInv Term Susp Inst Main.
+From L2 Require Import Model GenTables Sim Base Own Jobs Fut Wake WakeInv Term Susp Inst YDefs YThm Main.
 
 Lemma terminal_check s : enabled_list s = [] -> terminal G s.
 Proof.
@@ -109,3 +109,48 @@ Example C06_zero_pool_generated sc0 others nev tr s : await_only sc0 -> Forall f
 Proof. apply C06_zero_pool_main; [apply gen_all_cond|apply gen_zero_cond]. Qed.
 Print Assumptions C06_zero_pool_nonvacuous.
 Print Assumptions C06_zero_pool_generated.
+
+(* ---------- C08 (future_sync in L2): the hypotheses are met by runs in which the interesting events happen ---------- *)
+(* awaited to completion: the user future awaits event 0 (fired by the other caller), completes inside the slot of job 0; the result
+   is delivered after the slot job signalled; a desync of each caller around it *)
+Definition PY := [[OFutSync [PAwait 0; PTouch] UAwait; ODesync]; [ODesync; OFire 0]].
+Example C08_nonvacuous_await :
+  exists tr s, ywf 1 PY /\ run G (init PY 1 1) tr = Some s /\ terminal G s /\ all_fired s /\ stacks s !! 0 = Some [FTop []] /\
+    exists l2 l1, s.(log) = l2 ++ GResolve 0 0 :: l1 /\ GYnew 0 0 1 ∈ l1 /\ GUStart 0 ∈ l1 /\ GUFinish 0 ∈ l1 /\ GSig 0 0 ∈ l1.
+Proof.
+  destruct (final PY 1 1 3) as [[s tr] b] eqn:E. exists tr, s. vm_compute in E. injection E as <- <- _.
+  split; [by repeat constructor|]. split; [vm_compute; reflexivity|]. split; [apply terminal_check; vm_compute; reflexivity|].
+  split; [apply all_fired_check; vm_compute; reflexivity|].
+  split; [vm_compute; reflexivity|]. exists [GFinish 2; GStart 2; GPush 2]. eexists. split; [vm_compute; reflexivity|].
+  rewrite !elem_of_cons. tauto.
+Qed.
+(* dropped while the user future is pending (event 0 never fires): the user future is destroyed inside the slot, then task_finished
+   is dropped, the slot job ends and the next operation starts *)
+Definition PYD := [[OFutSync [PAwait 0] (UDropAfter 2); ODesync]; [ODesync]].
+Example C08_nonvacuous_drop :
+  exists tr s, ywf 1 PYD /\ run G (init PYD 1 1) tr = Some s /\ terminal G s /\ stacks s !! 0 = Some [FTop []] /\
+    exists l2 l1, s.(log) = l2 ++ GYdrop 0 :: GUCancel 0 :: l1 /\ GYnew 0 0 1 ∈ l1 /\ GUStart 0 ∈ l1 /\ GStart 0 ∈ l1 /\
+                  GFinish 0 ∈ l2 /\ GFinish 0 ∉ l1.
+Proof.
+  destruct (final PYD 1 1 2) as [[s tr] b] eqn:E. exists tr, s. vm_compute in E. injection E as <- <- _.
+  split; [by repeat constructor|]. split; [vm_compute; reflexivity|]. split; [apply terminal_check; vm_compute; reflexivity|].
+  split; [vm_compute; reflexivity|]. exists [GFinish 2; GStart 2; GFinish 1; GStart 1; GFinish 0; GSig 0 0; GPush 2]. eexists.
+  split; [vm_compute; reflexivity|].
+  rewrite !elem_of_cons, !elem_of_nil. split; [tauto|]. split; [tauto|]. split; [tauto|]. split; [tauto|].
+  intros H. repeat (destruct H as [H|H]; [discriminate H|]). done.
+Qed.
+(* the C08 theorems instantiated with the generated tables *)
+Example C08_2_generated scripts npool nev tr s l2 e l1 o : ywf nev scripts -> run G (init scripts npool nev) tr = Some s ->
+  s.(log) = l2 ++ e :: l1 -> user_ev e = Some o ->
+  exists la lb, l1 = la ++ GStart o :: lb /\ forall o', GStart o' ∉ la /\ GFinish o' ∉ la.
+Proof. intros Hwf Hr E He. by destruct (proj1 (C08_2_main G gen_all_cond scripts npool nev tr s l2 e l1 Hwf Hr E) o He). Qed.
+Example C08_5_generated scripts npool nev tr s : ywf nev scripts -> npool >= 1 -> run G (init scripts npool nev) tr = Some s ->
+  terminal G s -> (forall e, e < nev -> (getev s e).(fired) = true) ->
+  s.(qs) = Idle /\ s.(jobs) = [] /\ forall c st, stacks s !! c = Some st -> st = [FTop []] \/ st = [FPIdle].
+Proof.
+  intros Hwf Hn Hr Ht He. destruct (C08_5_main G gen_all_cond scripts npool nev tr s Hwf Hn Hr Ht He) as (_ & ? & ? & _ & ? & _). done.
+Qed.
+Print Assumptions C08_5_generated.
+Print Assumptions C08_nonvacuous_await.
+Print Assumptions C08_nonvacuous_drop.
+Print Assumptions C08_2_generated.
